@@ -209,13 +209,22 @@ pub fn gen(tier: Tier, rng: &mut Rng64, out: &mut Out) {
             ops_for(&b, n, &partials, &subsets, rng, out);
         }
     }
-    // --- thorough: a sample of the functions over 4 variables with the same treatment
+    // --- thorough: a sample of the functions over 4 variables with the same treatment, and the one-variable
+    //     restrict / pick on ALL 65 536 functions over 4 variables
     if thorough {
         let partials = all_partials(4);
         let subsets = all_subsets(4);
-        for _ in 0..400 {
+        for _ in 0..1500 {
             let b = fmt_bdd(&bdd_of_tt(4, &tt_from_index(4, rng.below(65536))));
             ops_for(&b, 4, &partials, &subsets, rng, out);
+        }
+        for t in 0..65536u64 {
+            let b = fmt_bdd(&bdd_of_tt(4, &tt_from_index(4, t)));
+            for x in 0..4usize {
+                run("C06.vres", &[b.clone(), x.to_string(), s("0")], out);
+                run("C06.vres", &[b.clone(), x.to_string(), s("1")], out);
+                run("C06.vpick", &[b.clone(), x.to_string()], out);
+            }
         }
     }
     // --- repeated variables in the pick list (the slice denotes a set), adjacent and NON-adjacent repeats:
